@@ -119,12 +119,46 @@ class PortOracle(UnrollMixin, Hooks):
 
     def decide(self, cond, st):
         r = self._decide(cond, st)
+        if r is None and isinstance(cond, Truthy):
+            self.regex_use(cond.v)
         if r is None and not isinstance(cond, (AndC, OrC, NotC, Const)) and \
                 fold_cond(cond) is None and not self.problems:
             # a condition about the ports that the oracle has no answer for: both outcomes are
             # explored, so a mismatch in this case is not a verdict
             self.undecided.append(cond)
         return r
+
+    def regex_use(self, v):
+        """A match of a compiled / literal pattern against a port field whose pattern text
+        contains the looked-up name *not* passed through re.escape: names are arbitrary text
+        (the library reports them from descriptors), so 'Pen[2]', 'Lab (B)' or 'x^2$' change the
+        meaning of the pattern or make it invalid."""
+        if not (isinstance(v, Opaque) and v.label in ('m:search', 'm:match', 'm:fullmatch',
+                                                      'call:re.search', 'call:re.match',
+                                                      'call:re.fullmatch', 'm:findall',
+                                                      'call:re.findall') and v.args):
+            return
+        pat = v.args[0]
+        if isinstance(pat, Opaque) and pat.label == 'call:re.compile' and pat.args:
+            pat = pat.args[0]
+
+        def raw_name(x):
+            if x == QUERY:
+                return True
+            if isinstance(x, Opaque):
+                if x.label in ('call:re.escape',):
+                    return False
+                return any(raw_name(a) for a in x.args)
+            if isinstance(x, Str):
+                return any(isinstance(p_, Slot) and raw_name(p_.value) for p_ in x.parts)
+            if isinstance(x, Tup):
+                return any(raw_name(a) for a in x.items)
+            return False
+        if raw_name(pat):
+            self.problem('the looked-up name is placed in a regular expression without '
+                         're.escape: a name such as "Pen[2]" or "Lab (B)" is then read as '
+                         'pattern syntax and the board that reports this name is not found '
+                         '(or re.error is raised)')
 
     name_len = 5        # length of the name looked up (find_named*): decides len(name) tests
     name_has_space = False     # the looked-up name contains a blank
